@@ -10,11 +10,13 @@ NamesN(seq) == {seq[j].n : j \in 1..Len(seq)}
 IsPrivate(D, n) == n \in DOMAIN D.priv /\ D.priv[n]            \* leading underscore (classified by the harness: TLC has no string slicing)
 InheritAnnots(D) == (D.opts.attrs = <<>> /\ D.opts.typed = <<>>) \/ D.opts.useskip
 \* managed attributes this class becomes the owner of, with their collection family
+\* (the overflow attribute named by init_overflow_attr is a managed Dict[str, Any] attribute like any other)
+Overflow(D) == IF "overflow" \in DOMAIN D.opts /\ D.opts.overflow # "" THEN {[n |-> D.opts.overflow, fam |-> "map"]} ELSE {}
 Own(D) == (IF InheritAnnots(D) THEN {a \in ToSet(D.annots) : ~IsPrivate(D, a.n) /\ a.n \notin Names(D.opts.skip)} ELSE {})
-       \cup {[n |-> n, fam |-> "none"] : n \in Names(D.opts.attrs) \ NamesN(D.opts.typed)} \cup ToSet(D.opts.typed)
+       \cup {[n |-> n, fam |-> "none"] : n \in Names(D.opts.attrs) \ NamesN(D.opts.typed)} \cup ToSet(D.opts.typed) \cup Overflow(D)
 OwnNames(D) == {a.n : a \in Own(D)}
 AllNames(D) == OwnNames(D) \cup NamesN(D.inh)
-IllegalPrivate(D) == \E n \in Names(D.opts.attrs) \cup NamesN(D.opts.typed) : IsPrivate(D, n)
+IllegalPrivate(D) == \E n \in Names(D.opts.attrs) \cup NamesN(D.opts.typed) \cup {a.n : a \in Overflow(D)} : IsPrivate(D, n)
 \* singular-name rule: the singular form, unless it is another managed attribute or the singular form of another collection:
 \* then <attr>_item (for every attribute involved), unless that is an attribute too: error
 Colls(D) == {a \in Own(D) \cup ToSet(D.inh) : a.fam # "none"}
